@@ -35,6 +35,9 @@ ANY = R("any", __module__=K("typing"))
 INT, STR, NONE_T = cls("builtins", "int"), cls("builtins", "str"), cls("builtins", "NoneType")
 USER, NESTED, OTHER = cls("pkg.mod", "User"), cls("pkg.mod", "Outer.Inner"), cls("pkg.other", "Thing")
 DEEP = cls("vendor.db.models.types", "Record")
+# a class of the traced program that is NAMED like a builtin the builtins module does not export (a sentinel class `NoneType`,
+# a read-only `mappingproxy` of one's own): importable from its module, and a different class from the hidden builtin
+SHADOW = cls("pkg.other", "NoneType")
 # a class object that is false as a truth value: its metaclass defines __len__ / __bool__ (a registry of plugins that is still
 # empty, an enumeration-like class without members) - a class like any other for every purpose of the property
 REGISTRY = R("cls", __module__=K("pkg.mod"), __qualname__=K("Registry"), __name__=K("Registry"), __falsy__=K(True))
@@ -81,6 +84,7 @@ class World:
         self.add("pkg.mod", "Outer", cls("pkg.mod", "Outer"))
         self.add("pkg.mod", "Outer.Inner", NESTED)
         self.add("pkg.other", "Thing", OTHER)
+        self.add("pkg.other", "NoneType", SHADOW)
         self.add("pkg.mod", "Registry", REGISTRY)
         self.modules.setdefault("pkg", {})
         # a class four packages deep (what is missing when an ancestor package goes away is that ancestor, not the leaf)
@@ -563,4 +567,5 @@ def type_universe() -> List[R]:
         a1, a2, nested, gen("List", a1), gen("Dict", STR, a2), gen("Union", a1, NONE_T), gen("Tuple", a1, a2),
         gen("DefaultDict", STR, a1), gen("Type", INT),
         REGISTRY, gen("List", REGISTRY), gen("Union", REGISTRY, NONE_T), anon_td({"r": REGISTRY}),
+        SHADOW, gen("List", SHADOW), gen("Dict", STR, SHADOW),
     ]
